@@ -213,3 +213,17 @@ fn c13_signatures_distinct_except_k2() {
     kani::assume(!((i == 3 && j == 4) || (i == 4 && j == 3)));
     assert!(s[i] != s[j]);
 }
+
+/// numeric keys on byte-string / string maps: by-value and by-reference conversions agree for every u64, and give the 8 big-endian
+/// bytes the released format uses (complete: loop-free over a symbolic u64)
+#[kani::proof]
+fn u8_bytes_string_from_u64_value_eq_ref() {
+    let a: u64 = kani::any();
+    let b1 = DbBytes::from(a); let b2 = DbBytes::from(&a);
+    assert!(b1.as_bytes() == b2.as_bytes());
+    assert!(b1.as_bytes().len() == 8);
+    let be = a.to_be_bytes();
+    let mut i = 0; while i < 8 { assert!(b1.as_bytes()[i] == be[i]); i += 1; }
+    let s1 = DbString::from(a); let s2 = DbString::from(&a);
+    assert!(s1.as_bytes() == s2.as_bytes());
+}
